@@ -135,6 +135,10 @@ func runC10(k int, rng *Rng) CaseResult {
 				// package never started any background goroutine, so nothing
 				// can bring them to disk "without further calls"
 				w.fail("no-background-flusher", "flusher", "-", "asynchronous writes were accepted but the package spawned no goroutine")
+			} else if sp, ex := clockFlusherCensus(); w.accepts > 0 && sp > 0 && sp == ex {
+				// also decided logically: every flusher that was started has
+				// returned although the handle is open and asynchronous writes are on
+				w.fail("flusher-exited", "flusher", "-", fmt.Sprintf("all %d background flushers of the open handle have returned; pending writes can no longer reach the disk without further calls", sp))
 			} else if w.accepts > 0 {
 				w.incon = fmt.Sprintf("flusher does not sleep through time.Sleep: virtual deadlines cannot be decided (spawns=%d live=%d gen=%d parked=%d sleeps=%d)", clockSpawnsAny(), clockLive(), clock.gen, len(clock.parked), clock.sleeps)
 			}
@@ -188,12 +192,29 @@ func runC10(k int, rng *Rng) CaseResult {
 			out := w.Put(r, "update")
 			w.abs("upd>" + out.Class)
 			check("InsertOrUpdate")
-		case x < 57:
+		case x < 56:
 			u := pick(rng, live)
 			w.Delete(u)
 			deletedEver[u] = true
 			w.abs("del")
 			check("Delete")
+		case x < 60:
+			// idempotent Create on the live handle, half of the time with the
+			// very Schema value of the first Create
+			same := rng.Bool()
+			w.logf("Create(again) same-schema-value=%v", same)
+			var e error
+			if same {
+				e = w.CreateSameValue()
+			} else {
+				e = w.Create()
+			}
+			if e != nil {
+				w.fail("create-failed", "Create(again)", "-", e.Error())
+			}
+			clockSettle()
+			w.abs("create")
+			check("Create")
 		case x < 62:
 			o := &Other{A: rng.Intn(3), B: fmt.Sprintf("b%d", i), C: 1.5}
 			w.call("InsertOrUpdate(Other)", func() { err = w.db.InsertOrUpdate(o) })
